@@ -263,7 +263,7 @@ Theorem crash_storm_then_cleanup : forall (V : Type) (C : cfg V), framed C ->
   forallb is_crash tr = true -> run C s tr = Some s1 ->
   (forall t w, locks s t = LHeld w -> crashed_in tr w \/ live (w_pc (ws s w)) = false) ->
   exists s2, step C s1 ERemoveLocks = Some s2 /\ reach C r0 (tr0 ++ tr ++ [ERemoveLocks]) s2 /\
-             results s2 = results s /\ (forall t, locks s2 t = LFree).
+             results s2 = results s /\ (forall t, locks s2 t = LFree) /\ ws s2 = ws s1.
 Proof.
   intros V C HF r0 tr0 s tr s1 R Hc Hr Hh.
   destruct (crash_storm_effect V C tr s s1 Hc Hr) as [R1 [L1 [D1 O1]]].
@@ -283,7 +283,49 @@ Proof.
       destruct Hn as [Hn|Hk]; [rewrite (O1 w Hn); exact Hd | rewrite (D1 w Hk); reflexivity].
   - exists s2. split; [exact S2|]. split.
     + rewrite app_assoc. eapply reach_app; [exact R1'|]. simpl. rewrite S2. reflexivity.
-    + split; [congruence | exact L2].
+    + split; [congruence | split; [exact L2 | exact W2]].
+Qed.
+
+(* whether a worker is among the killed is decidable *)
+Lemma crashed_in_dec : forall (V : Type) (tr : list (ev V)) w,
+  forallb is_crash tr = true -> crashed_in tr w \/ ~ crashed_in tr w.
+Proof.
+  intros V tr w. induction tr as [|e tr IH]; intros Hc; [right; intros []|].
+  simpl in Hc. apply andb_true_iff in Hc. destruct Hc as [He Hc]. destruct e; try discriminate.
+  destruct (Nat.eq_dec w w0) as [E|E]; [left; left; now subst|].
+  destruct (IH Hc) as [A|A]; [left; right; exact A | right].
+  intros [X|X]; [inversion X; congruence | exact (A X)].
+Qed.
+
+(* recovery, end to end: everything that is not one of the new workers F is killed (or had left already) - in any
+   state reachable by any number of workers, at any point of their protocols -, the operator removes the stale
+   locks, the new workers run: at their quiescence every task that can have a result has one.  (That the results
+   are the sequential values and that nothing already stored is computed again are C01 (a) and C02 for the whole
+   trace.) *)
+Theorem recovery_end_to_end : forall (V : Type) (C : cfg V), framed C ->
+  forall rank, ranked C rank -> closed C ->
+  forall r0 tr0 s tr s1 (F : wid -> bool), reach C r0 tr0 s ->
+  forallb is_crash tr = true -> run C s tr = Some s1 ->
+  (forall w, F w = false -> crashed_in tr w \/ live (w_pc (ws s w)) = false) ->
+  (forall w, F w = true -> ws s w = fresh_w /\ ~ crashed_in tr w) ->
+  (forall t w, locks s t = LHeld w -> F w = false) ->
+  exists s2, step C s1 ERemoveLocks = Some s2 /\ results s2 = results s /\
+    forall tr' s', forallb (okev C) tr' = true -> run C s2 tr' = Some s' ->
+      quiescent F s' -> (exists w c, F w = true /\ w_pc (ws s' w) = PDone c) ->
+      forall t, In t (c_tasks C) -> (results s' t <> None <-> ~ doomed C (results s') t).
+Proof.
+  intros V C HF rank HR HC r0 tr0 s tr s1 F R Hc Hr Hn Hf Hl.
+  destruct (crash_storm_effect V C tr s s1 Hc Hr) as [_ [_ [D1 O1]]].
+  destruct (crash_storm_then_cleanup V C HF r0 tr0 s tr s1 R Hc Hr) as [s2 [S2 [R2 [E2 [L2 W2]]]]].
+  - intros t w Hh. apply Hn. exact (Hl t w Hh).
+  - exists s2. split; [exact S2|]. split; [exact E2|].
+    intros tr' s' Q H' Hq Hw.
+    eapply (later_execute_completes C HF rank HR HC r0 _ s2 F tr' s' R2); eauto.
+    + intros t w. rewrite L2. discriminate.
+    + intros w Fw. rewrite W2. destruct (Hf w Fw) as [A B]. rewrite (O1 w B). exact A.
+    + intros w Fw. rewrite W2. destruct (Hn w Fw) as [A|A].
+      * rewrite (D1 w A). reflexivity.
+      * destruct (crashed_in_dec V tr w Hc) as [B|B]; [rewrite (D1 w B); reflexivity | rewrite (O1 w B); exact A].
 Qed.
 
 (* --- a stop request is never blocked: the worker's own next events take it out of execution_loop --- *)
